@@ -331,3 +331,206 @@ Proof.
   - unfold fails_at. cbn. auto.
   - vm_compute. reflexivity.
 Qed.
+
+(* ================================================================= C11 *)
+Lemma append_spec a new : append a new = a ++ new.
+Proof. reflexivity. Qed.
+
+Lemma collect_ok kd walk items : collect kd walk = Ok items -> items = filter (wanted kd) walk.
+Proof. unfold collect. destruct (existsb missing walk); intro H; inversion H. reflexivity. Qed.
+Lemma build_ok kt ns es : build kt ns = Ok es -> es = map (fresh kt) ns.
+Proof. unfold build. destruct (forallb creatable ns); intro H; inversion H. reflexivity. Qed.
+
+Theorem append_cmd_spec kd kt a walk a' :
+  append_cmd kd kt a walk = Ok a' -> a' = a ++ map (fresh kt) (filter (wanted kd) walk).
+Proof.
+  unfold append_cmd. destruct (collect kd walk) as [items| |] eqn:C; cbn; try discriminate.
+  destruct (build kt items) as [new| |] eqn:B; cbn; try discriminate.
+  intro H. inversion H. apply collect_ok in C. apply build_ok in B. subst. reflexivity.
+Qed.
+
+Lemma update_cmd_ok kd kt excl cond a walk a' :
+  update_cmd kd kt excl cond a walk = Ok a' ->
+  let r := update_pass excl cond a (filter (wanted kd) walk) [] in
+  a' = fst (fst r) ++ map (fresh kt) (snd (fst r) ++ snd r).
+Proof.
+  unfold update_cmd. destruct (collect kd walk) as [items| |] eqn:C; cbn; try discriminate.
+  apply collect_ok in C. subst items.
+  destruct (update_pass excl cond a (filter (wanted kd) walk) []) as [[k j] t]. cbn.
+  destruct (build kt (j ++ t)) as [new| |] eqn:B; cbn; try discriminate.
+  intro H. inversion H. apply build_ok in B. subst. reflexivity.
+Qed.
+
+Lemma find_names e targets n : find (names_entry e) targets = Some n -> In n targets /\ node_name n = e_path e.
+Proof. intro H. apply find_some in H. destruct H as [H1 H2]. split; auto. apply bytes_eqb_eq. exact H2. Qed.
+Lemma find_none_names e targets : find (names_entry e) targets = None -> ~ In (e_path e) (map node_name targets).
+Proof.
+  intros H Hin. apply in_map_iff in Hin. destruct Hin as [m [E Hm]].
+  pose proof (find_none _ _ H m Hm) as F. unfold names_entry in F. rewrite E, bytes_eqb_refl in F. discriminate.
+Qed.
+Lemma filter_nil {A} (f : A -> bool) l : (forall x, In x l -> f x = false) -> filter f l = [].
+Proof. induction l as [|x l IH]; cbn; auto. intro H. rewrite (H x) by auto. apply IH. intros; apply H; auto. Qed.
+Lemma cond0 e n : cond_holds 0 e n = true.
+Proof. reflexivity. Qed.
+
+(* ---- entries that are not named stay, unchanged and in order (no hypothesis on the archive) ---- *)
+Definition unnamed (targets : list node) (e : entry) : bool := negb (mem (e_path e) (map node_name targets)).
+
+Lemma pass_unnamed excl cond T0 : forall a targets refreshed,
+  incl targets T0 -> (forall q, In q refreshed -> In q (map node_name T0)) ->
+  let r := update_pass excl cond a targets refreshed in
+  filter (unnamed T0) (fst (fst r)) = filter (unnamed T0) a /\ incl (snd (fst r)) T0 /\ incl (snd r) T0.
+Proof.
+  induction a as [|e a IH]; intros targets refreshed Hi Hr; cbn [update_pass].
+  - cbn. auto using incl_nil_l.
+  - assert (Hf : incl (filter (fun m => negb (names_entry e m)) targets) T0).
+    { intros m Hm. apply filter_In in Hm. apply Hi. tauto. }
+    destruct (find (names_entry e) targets) as [n|] eqn:F.
+    + destruct (find_names _ _ _ F) as [Hn En].
+      assert (Ue : unnamed T0 e = false).
+      { unfold unnamed. apply negb_false_iff. apply mem_In. rewrite <- En. apply in_map. auto. }
+      destruct (negb (mem (e_path e) excl) && cond_holds cond e n).
+      * specialize (IH _ (e_path e :: refreshed) Hf).
+        destruct (update_pass excl cond a _ (e_path e :: refreshed)) as [[k j] t]. cbn in *. rewrite Ue.
+        destruct IH as [I1 [I2 I3]].
+        { intros q [Hq|Hq]; auto. subst q. rewrite <- En. apply in_map. auto. }
+        repeat split; auto. intros m [Hm|Hm]; auto. subst. auto.
+      * specialize (IH _ refreshed Hf Hr).
+        destruct (update_pass excl cond a _ refreshed) as [[k j] t]. cbn in *. rewrite Ue. exact IH.
+    + destruct (mem (e_path e) refreshed) eqn:M.
+      * assert (Ue : unnamed T0 e = false).
+        { unfold unnamed. apply negb_false_iff. apply mem_In. apply Hr. apply mem_In. exact M. }
+        specialize (IH _ refreshed Hi Hr). cbn. rewrite Ue. exact IH.
+      * specialize (IH _ refreshed Hi Hr).
+        destruct (update_pass excl cond a targets refreshed) as [[k j] t]. cbn in *.
+        destruct IH as [I1 [I2 I3]]. rewrite I1. auto.
+Qed.
+
+Theorem update_keeps_others kd kt excl cond a walk a' :
+  update_cmd kd kt excl cond a walk = Ok a' ->
+  filter (unnamed (filter (wanted kd) walk)) a' = filter (unnamed (filter (wanted kd) walk)) a.
+Proof.
+  intro H. apply update_cmd_ok in H. cbn zeta in H. subst a'.
+  set (T := filter (wanted kd) walk).
+  destruct (pass_unnamed excl cond T a T [] (incl_refl _)) as [I1 [I2 I3]]; [intros q []|].
+  rewrite filter_app, I1. rewrite (filter_nil (unnamed T) (map (fresh kt) _)); [apply app_nil_r|].
+  intros x Hx. apply in_map_iff in Hx. destruct Hx as [m [E Hm]]. subst x.
+  unfold unnamed. apply negb_false_iff. apply mem_In. cbn. apply in_map.
+  apply in_app_or in Hm. destruct Hm; auto.
+Qed.
+
+(* ---- every named path on disk occurs exactly once, with the disk's content ---- *)
+Section Once.
+Variable p : bytes.
+Definition at_p (e : entry) : bool := bytes_eqb (e_path e) p.
+Definition named_p (m : node) : bool := bytes_eqb (node_name m) p.
+
+Lemma named_absent l : ~ In p (map node_name l) -> filter named_p l = [].
+Proof.
+  intro H. apply filter_nil. intros m Hm. unfold named_p. apply bytes_eqb_neq. intro E. apply H. rewrite <- E. apply in_map. auto.
+Qed.
+Lemma NoDup_map_filter {A B} (f : A -> B) g l : NoDup (map f l) -> NoDup (map f (filter g l)).
+Proof.
+  induction l as [|x l IH]; cbn; auto. intro H. inversion H; subst.
+  destruct (g x); cbn; auto. constructor; auto. intro Hin. apply H2.
+  apply in_map_iff in Hin. destruct Hin as [y [E Hy]]. apply filter_In in Hy. rewrite <- E. apply in_map. tauto.
+Qed.
+Lemma In_map_filter {A B} (f : A -> B) g l q : In q (map f (filter g l)) -> In q (map f l).
+Proof. intro H. apply in_map_iff in H. destruct H as [y [E Hy]]. apply filter_In in Hy. rewrite <- E. apply in_map. tauto. Qed.
+
+Lemma named_filter_other e targets : p <> e_path e ->
+  filter named_p (filter (fun m => negb (names_entry e m)) targets) = filter named_p targets.
+Proof.
+  intro H. induction targets as [|m l IH]; cbn; auto.
+  destruct (names_entry e m) eqn:N; cbn.
+  - unfold names_entry in N. apply bytes_eqb_eq in N.
+    unfold named_p at 2. rewrite N. rewrite bytes_eqb_neq by auto. exact IH.
+  - destruct (named_p m); rewrite IH; reflexivity.
+Qed.
+Lemma named_first e targets m : NoDup (map node_name targets) ->
+  find (names_entry e) targets = Some m -> p = e_path e -> filter named_p targets = [m].
+Proof.
+  intros ND F E. induction targets as [|h l IH]; cbn in *; [discriminate|].
+  inversion ND; subst.
+  destruct (names_entry e h) eqn:N.
+  - inversion F. subst h. unfold names_entry in N. apply bytes_eqb_eq in N.
+    unfold named_p at 1. rewrite N, <- E, bytes_eqb_refl. f_equal. apply named_absent. rewrite E, <- N. auto.
+  - unfold named_p at 1. unfold names_entry in N.
+    replace (bytes_eqb (node_name h) p) with false by (rewrite E; symmetry; exact N). apply IH; auto.
+Qed.
+
+Lemma pass_once : forall a targets refreshed,
+  NoDup (map node_name targets) ->
+  (forall q, In q refreshed -> ~ In q (map node_name targets)) ->
+  let r := update_pass [] 0 a targets refreshed in
+  (In p (map node_name targets) ->
+     filter at_p (fst (fst r)) = [] /\ filter named_p (snd (fst r) ++ snd r) = filter named_p targets)
+  /\ (In p refreshed -> filter at_p (fst (fst r)) = [] /\ filter named_p (snd (fst r) ++ snd r) = []).
+Proof.
+  induction a as [|e a IH]; intros targets refreshed ND Hr; cbn [update_pass].
+  - cbn. split; intro H; split; auto. apply named_absent. auto.
+  - destruct (find (names_entry e) targets) as [n|] eqn:F.
+    + destruct (find_names _ _ _ F) as [Hn En].
+      change (negb (mem (e_path e) []) && cond_holds 0 e n) with true. cbn iota.
+      set (targets' := filter (fun m => negb (names_entry e m)) targets).
+      assert (ND' : NoDup (map node_name targets')) by (apply NoDup_map_filter; auto).
+      assert (Hr' : forall q, In q (e_path e :: refreshed) -> ~ In q (map node_name targets')).
+      { intros q [Hq|Hq] Hin.
+        - subst q. apply in_map_iff in Hin. destruct Hin as [m [E Hm]]. apply filter_In in Hm.
+          destruct Hm as [_ Hm]. unfold names_entry in Hm. rewrite E, bytes_eqb_refl in Hm. discriminate.
+        - apply (Hr q Hq). eapply In_map_filter; eauto. }
+      specialize (IH targets' (e_path e :: refreshed) ND' Hr').
+      destruct (update_pass [] 0 a targets' (e_path e :: refreshed)) as [[k j] t]. cbn in *.
+      destruct IH as [IA IB]. split.
+      * intro Hp. destruct (list_eq_dec Byte.byte_eq_dec p (e_path e)) as [E|NE].
+        -- destruct (IB (or_introl (eq_sym E))) as [B1 B2]. split; auto.
+           unfold named_p at 1. rewrite En, <- E, bytes_eqb_refl. rewrite B2.
+           symmetry. eapply named_first; eauto.
+        -- assert (Hp' : In p (map node_name targets')).
+           { apply in_map_iff in Hp. destruct Hp as [m [E Hm]]. apply in_map_iff. exists m. split; auto.
+             apply filter_In. split; auto. unfold names_entry. rewrite E. rewrite bytes_eqb_neq; auto. }
+           destruct (IA Hp') as [A1 A2]. split; auto.
+           unfold named_p at 1. rewrite En. rewrite bytes_eqb_neq by auto. rewrite A2.
+           apply named_filter_other. auto.
+      * intro Hp. destruct (IB (or_intror Hp)) as [B1 B2]. split; auto.
+        unfold named_p at 1. rewrite En. rewrite bytes_eqb_neq; auto.
+        intro E. apply (Hr p Hp). rewrite <- E, <- En. apply in_map. auto.
+    + pose proof (find_none_names _ _ F) as Hnone.
+      destruct (mem (e_path e) refreshed) eqn:M.
+      * apply IH; auto.
+      * specialize (IH targets refreshed ND Hr).
+        destruct (update_pass [] 0 a targets refreshed) as [[k j] t]. cbn in *.
+        destruct IH as [IA IB]. apply mem_nIn in M. split; intro Hp.
+        -- destruct (IA Hp) as [A1 A2]. split; auto. unfold at_p at 1.
+           rewrite bytes_eqb_neq; auto. intro E. apply Hnone. rewrite E. exact Hp.
+        -- destruct (IB Hp) as [B1 B2]. split; auto. unfold at_p at 1.
+           rewrite bytes_eqb_neq; auto. intro E. apply M. rewrite E. exact Hp.
+Qed.
+End Once.
+
+Lemma named_unique l n : NoDup (map node_name l) -> In n l -> filter (named_p (node_name n)) l = [n].
+Proof.
+  induction l as [|h l IH]; cbn; [tauto|]. intros ND [H|H]; inversion ND; subst.
+  - unfold named_p at 1. rewrite bytes_eqb_refl. f_equal. apply named_absent. auto.
+  - unfold named_p at 1. rewrite bytes_eqb_neq; auto. intro E. apply H2. rewrite E. apply in_map. auto.
+Qed.
+Lemma filter_map_fresh kt p l : filter (at_p p) (map (fresh kt) l) = map (fresh kt) (filter (named_p p) l).
+Proof.
+  induction l as [|m l IH]; cbn [map filter]; auto.
+  replace (at_p p (fresh kt m)) with (named_p p m) by reflexivity.
+  destruct (named_p p m); cbn [map]; rewrite IH; reflexivity.
+Qed.
+
+Theorem update_exactly_once kd kt a walk a' n :
+  update_cmd kd kt [] 0 a walk = Ok a' ->
+  NoDup (map node_name (filter (wanted kd) walk)) ->
+  In n (filter (wanted kd) walk) ->
+  filter (fun e => bytes_eqb (e_path e) (node_name n)) a' = [fresh kt n].
+Proof.
+  intros H ND Hn. apply update_cmd_ok in H. cbn zeta in H. subst a'.
+  set (T := filter (wanted kd) walk) in *.
+  destruct (pass_once (node_name n) a T [] ND) as [IA _]; [intros q []|].
+  destruct IA as [A1 A2]; [apply in_map; auto|].
+  change (fun e => bytes_eqb (e_path e) (node_name n)) with (at_p (node_name n)).
+  rewrite filter_app, A1, filter_map_fresh, A2, named_unique; auto.
+Qed.
